@@ -650,6 +650,14 @@ class Gen:
         crel = {e["rust"]: e for e in m.get("const_relations", [])}
         sentinels = {e["rust"]: e for e in m.get("sentinels", [])}
         unchecked = {e["rust"]: e for e in m.get("unchecked", [])}
+        # constants newer than the header installed in the sandbox whose value is known from the kernel source: pinned BY HAND in abi_map.json (an assumption,
+        # listed as such); the Rust source text is compared with the pinned value, so a changed constant is reported instead of silently listed as unchecked
+        pinned = {e["rust"]: e for e in m.get("pinned", [])}
+
+        def check_pinned(q, tv, file, line):
+            if q in pinned:
+                self.text_check("C13.const." + q, "%s == %#x (pinned: %s)" % (q, pinned[q]["value"], pinned[q]["why"]), tv == pinned[q]["value"], q, file, line,
+                                witness={"pinned": pinned[q]["value"], "rust_source_text": tv})
         reserved = {e["kernel"] for e in m.get("reserved_opcodes", [])}
         kv = self.kvalues
 
@@ -672,6 +680,7 @@ class Gen:
                 obl = "C13.const." + nm
                 if nm in unchecked:
                     self.unchecked.append("%s = %s (%s)" % (nm, c["expr"], unchecked[nm]["why"]))
+                    check_pinned(nm, env.get(nm), file, c["line"])
                     free_pairs[nm] = None
                     continue
                 if nm in cnames:
@@ -708,6 +717,7 @@ class Gen:
                     obl = "C13.const." + q
                     if q in unchecked:
                         self.unchecked.append("%s = %s (%s)" % (q, mem["expr"], unchecked[q]["why"]))
+                        check_pinned(q, eval_rust_expr(mem["expr"], env), file, mem["line"])
                         pend_unchecked.append(mem)
                         continue
                     if q in cnames:
@@ -790,6 +800,7 @@ class Gen:
                     tv = eval_rust_expr(v["expr"], env) if v["expr"] else None
                     if q in unchecked:
                         self.unchecked.append("%s = %s (%s)" % (q, v["expr"], unchecked[q]["why"]))
+                        check_pinned(q, tv, file, v["line"])
                         continue
                     if q in sentinels:
                         pend.append((v, sentinels[q], tv))
